@@ -117,6 +117,19 @@ class FileDriver(drv.Driver):
         self.fx.resolution = self.cfg.get("resolution", 8)
         self.regs, self.regsnap, self.depth, self.extra, self.raised = [], [], 0, None, False
         for st in prog["steps"]:
+            if st.get("op") == "prove":
+                # an explicit proving step in the middle of the program (checkpoint): the files written at the END must still
+                # describe everything traced, whatever an earlier prove() left behind
+                os.makedirs(workdir, exist_ok=True)
+                cwd0 = os.getcwd()
+                os.chdir(workdir)
+                try:
+                    with contextlib.redirect_stdout(io.StringIO()), contextlib.redirect_stderr(io.StringIO()):
+                        self.be.prove()
+                finally:
+                    os.chdir(cwd0)
+                self.regs.append(None)
+                continue
             self.step(st)
         for inj in prog.get("inject", []):
             # extra witness / coefficient classes the API does not readily produce (wide values, zero coefficients)
